@@ -225,17 +225,19 @@ CLAIMED = {
                 "PrimFloat twin, message layer, assembly layer): inputs are a prefix of the reported unspents with exact outpoints, "
                 "selection stops when the request is covered, outputs have the stated shape, and outputs + fee (+ sub-dust change) = inputs "
                 "exactly (given the float-to-satoshi conversion is exact - kernel-computed for the boundary amounts - and the request is "
-                "covered; both premises shown necessary); on the sub-domain where the code is right the signed messages ARE the legacy / "
-                "BIP143 sighash pre-images and every signature verifies (under curve_facts); outside it the deviations are proved as "
-                "_refuted theorems with vm_compute witnesses. The seven corresponding defect classes are listed in KNOWN_FINDINGS.txt "
-                "with narrow matchers and replayed witnesses; any other violation is reported. Correspondence: scripted UTXO source and "
+                "covered; both premises shown necessary); for every selected input, sighash flag, version, locktime and number of inputs "
+                "the signed messages ARE the legacy / BIP143 sighash pre-images (C16_segwit_messages, C16_legacy_sig_message_spec, "
+                "C16_legacy_messages; the SIGHASH_SINGLE-without-matching-output case is exactly the refusal) and every signature "
+                "verifies (C16_*_signatures_valid, C16_sign_inputs_valid for all eight sender kinds, under curve_facts). The send_tx "
+                "signing defects found earlier are repaired in /repo (7 fix: commits, KNOWN_FINDINGS.txt fixed: lines, regression seeds); "
+                "no known finding remains. Correspondence: scripted UTXO source and "
                 "nonces, eight sender kinds x recipient kinds x flags x versions x locktimes, independent consensus-level checker "
                 "(own parser, legacy + BIP143 sighash, template unlock rules, OpenSSL ECDSA, exact Decimal arithmetic).",
         "note": "PARTIAL by design: no script interpreter (validity is relative to the standard templates); sat_exact for all amounts and "
-                "request_covered are hypotheses; the full Spec.unlocks theorem is decided by the correspondence oracle; 7 KNOWN findings "
-                "(send_tx signing defects and raw-script sender/recipient refusals) print KNOWN-FINDING lines. PrimFloat/Uint63 "
+                "request_covered are hypotheses; the p2wpkh scriptCode equality is a hypothesis; the full Spec.unlocks theorem is decided by "
+                "the correspondence oracle. PrimFloat/Uint63 "
                 "primitives appear in Print Assumptions of three examples. Trusted: Coq kernel, extraction, harness, OpenSSL.",
-        "technique": "Coq proof (value conservation over binary64, sighash refinement, _refuted witnesses) + known-findings replay + correspondence",
+        "technique": "Coq proof (value conservation over binary64, legacy/BIP143 sighash refinement, signature validity under curve_facts) + extraction correspondence",
         "design": "DESIGN.md section 8 / C16",
     },
     "C17": {
